@@ -97,7 +97,8 @@ def invariant(h, ctx, t, label, graph_clause=True):
             ensure(h, ctx, f"C10.{label}.no-graph-in-cache", z3.BoolVal(not bool((slot._g or {}).get("graph"))), meta={"slot": name})
 
 
-OPS = ["forward", "inverse", "train", "eval", "use_cache_on", "use_cache_off", "optimizer_step", "load_state_dict", "dtype_roundtrip", "to_double"]
+OPS = ["forward", "inverse", "train", "eval", "use_cache_on", "use_cache_off", "optimizer_step", "load_state_dict", "load_state_dict_via_parent",
+       "dtype_roundtrip", "to_double"]
 
 
 def cache_harness(cname, op, training, using, pat):
@@ -148,6 +149,13 @@ def cache_harness(cname, op, training, using, pat):
             for k, v in t.state_dict().items():
                 if k not in sd: sd[k] = v
             t.load_state_dict(sd)
+        elif op == "load_state_dict_via_parent":
+            # the same transition through an enclosing module (state-dict keys carry a prefix)
+            from nflows.transforms.base import CompositeTransform
+            from nflows.transforms.standard import IdentityTransform
+            parent = CompositeTransform([IdentityTransform(), t])
+            sd = {k: (h.inp("sd:" + k, tuple(v.shape), v.dtype) if v.dtype.is_floating_point else v) for k, v in parent.state_dict().items()}
+            parent.load_state_dict(sd)
         elif op == "dtype_roundtrip":
             t.double(); t.float()
         elif op == "to_double":
@@ -187,13 +195,18 @@ def cache_harness(cname, op, training, using, pat):
         if op in ("forward", "inverse"):
             f, g = (t.forward, t.forward_no_cache) if op == "forward" else (t.inverse, t.inverse_no_cache)
             a = f(x); b = g(x); out["pair"] = (a, b); hist.append(op)
-        elif op in ("load_state_dict", "optimizer_step"):
+        elif op in ("load_state_dict", "optimizer_step", "load_state_dict_via_parent"):
             t2 = LULinear(D, identity_init=False) if cname in ("Stub", "LULinear") else make()
             torch.manual_seed(int(inp["seed"]) + 1)
             with torch.no_grad():
                 for p in t2.parameters(): p.add_(torch.randn(p.shape))
             if op == "load_state_dict":
                 t.load_state_dict(t2.state_dict()); hist.append("load_state_dict(other)")
+            elif op == "load_state_dict_via_parent":
+                from nflows.transforms.base import CompositeTransform
+                from nflows.transforms.standard import IdentityTransform
+                CompositeTransform([IdentityTransform(), t]).load_state_dict(CompositeTransform([IdentityTransform(), t2]).state_dict())
+                hist.append("CompositeTransform([..., t]).load_state_dict(other)")
             else:
                 with torch.no_grad():
                     for p, q in zip(t.parameters(), t2.parameters()): p.copy_(q)
@@ -208,6 +221,11 @@ def cache_harness(cname, op, training, using, pat):
             out["pair_f"] = (t.forward(xx), t.forward_no_cache(xx)); out["pair_i"] = (t.inverse(xx), t.inverse_no_cache(xx))
         elif op in ("train", "eval", "use_cache_on", "use_cache_off"):
             {"train": t.train, "eval": t.eval, "use_cache_on": lambda: t.use_cache(True), "use_cache_off": lambda: t.use_cache(False)}[op]()
+            if t.training:
+                # an optimiser step while training, then back to cached evaluation: a cache that survived training would now be stale
+                with torch.no_grad():
+                    for p in t.parameters(): p.add_(torch.randn(p.shape) * 0.5)
+                t.eval(); t.use_cache(True); hist += ["optimizer step", "eval()", "use_cache(True)"]
             out["pair_f"] = (t.forward(x), t.forward_no_cache(x)); out["pair_i"] = (t.inverse(x), t.inverse_no_cache(x))
         return out
 
